@@ -20,7 +20,7 @@ PROPS["C04"] = dict(
             dict(name="lists", harness="c04_lists.cpp", flavor="asan", mode="lists", cases=dict(quick=40000, thorough=2000000))],
     rule="case = (class, random program of setter calls); distinct = distinct program text; non-trivial: every program step is followed by getter, wire and re-serialization checks; "
          "lists phase: case = (class, configuration, 1-3 codes, program of 1..14 add/remove/search steps with random data of 0..N octets), distinct = distinct program text",
-    floors=dict(any={"distinct": 200000, "wire_checks": 1000000, "getter_checks": 1000000, "steps:option-setter": 300000, "steps:scalar-setter": 300000, "field:*": 20,
+    floors=dict(any={"distinct": 200000, "wire_checks": 1000000, "getter_checks": 1000000, "steps:option-setter": 200000, "steps:scalar-setter": 300000, "field:*": 20,
                      # phase "lists" (quick tier observes roughly 2-3x these)
                      "lists:programs": 30000, "lists:distinct-histories": 25000, "lists:programs-with-duplicate-codes": 12000, "lists:getter_checks": 150000, "lists:size_checks": 150000,
                      "lists:wire_checks": 150000, "lists:dup-code-present": 12000, "lists:search-identity-checks": 10000, "lists:add-remove-neutral-checks": 15000, "lists:continued-on-parsed-object": 10000,
